@@ -520,6 +520,12 @@ class Solver(object, metaclass=SolverMetaclass):
         if self.recording_options['record_solver_residuals']:
             data['residual'] = system._retrieve_data_of_kind(filt, 'residual', vec_name, local)
 
+        if vec_name == 'nonlinear':
+            # inside a solver the vectors are in their scaled state: record physical values
+            system._scaled_vals_to_phys(data['output'], system._outputs, system._has_output_scaling)
+            system._scaled_vals_to_phys(data['residual'], system._residuals,
+                                        system._has_resid_scaling)
+
         self._rec_mgr.record_iteration(self, data, metadata)
 
     def cleanup(self):
